@@ -51,6 +51,14 @@ def run_real(ids, styles, nums, sizes, variant=0, data=False):
         for c in ids:
             cons[c].sample_size = sum(1 for s in styles if c in s)
         CVR.consistent_sampling(s4.make_cards(styles, nums), cons)
+        # ... and the very list object that is about to be sampled was sampled before under other sample numbers (an
+        # earlier seed): nothing of that order may survive either
+        for c_, n_ in zip(cards, list(nums)[::-1]):
+            c_.sample_num = n_
+        CVR.consistent_sampling(cards, cons)
+        for c_, n_ in zip(cards, nums):
+            c_.sample_num = n_
+            c_.sampled = False
         for c in ids:
             cons[c].sample_size = sizes[c]
             if sizes[c] == 0:
